@@ -72,7 +72,11 @@ def check(ctx, payload, expect_id, defined, full_body, rep=None):
             ctx.violation("stub-serialize-differs", f"{expect_id}: stub does not serialise back to the same frame", params)
             return
         ctx.hit("stubs_checked")
-    is_msm = m.ismsm
+    try:
+        is_msm = m.ismsm
+    except Exception as e:
+        ctx.violation("ismsm-raised", f"{expect_id}: reading ismsm raised {type(e).__name__}: {e}", params)
+        return
     if num in refmsm.MSM_NUMBERS:
         if is_msm is not True:
             ctx.violation("ismsm-false-for-msm", f"{expect_id}: ismsm={is_msm!r} for an implemented MSM number", params)
